@@ -356,8 +356,9 @@ class Interp:
         self.np = npstubs.make_numpy(self)
         self.stubmods = pystubs.make_modules(self)
         self.builtins = pystubs.make_builtins(self)
-        from . import libstubs
+        from . import libstubs, plotstubs
         self.stubmods.update(libstubs.make_lib_modules(self))
+        self.stubmods.update(plotstubs.make_plot_modules(self))
 
     def reset_state(self):
         """module-level mutable state of the interpreted program is reset before every path"""
@@ -1291,6 +1292,8 @@ class Interp:
             for x, y in ((a, b), (b, a)):
                 if isinstance(x, (list, tuple, str)) and isinstance(raw(y), int):
                     return x * raw(y)
+                if isinstance(x, (list, tuple, str)) and isinstance(raw(y), Sym) and raw(y).kind == "int":
+                    raise Untranslatable("sequence repeated a symbolic number of times")
         if op == "%" and isinstance(a, str):
             return a % b
         if op == "|" and isinstance(a, (set, dict)) and isinstance(b, (set, dict)):
